@@ -479,6 +479,9 @@ def dateFromNumber(number):
 
 
 class Value:
+    # most value classes do not call this constructor
+    info = ""
+
     def __init__(self):
         self.info = ""
 
